@@ -602,6 +602,8 @@ func addTransceiverSDP(
 					Address: "0.0.0.0",
 				},
 			},
+			// a rejected section still mirrors the mid of the section it answers
+			Attributes: []sdp.Attribute{{Key: sdp.AttrKeyMID, Value: midValue}},
 		})
 
 		return false, nil
